@@ -473,6 +473,48 @@ fn run_stepwise(enabled: bool, events: &[Ev], snap_at: usize, fault_stage: bool)
                     }
                 }
             }
+            // (d) a BATCH re-delivered: records k-1 and k arrive a second time, in order, after k (a reconnecting
+            // audit transport that replays its last frames); nothing may be applied twice
+            if k >= 1 {
+                let mut s = ticks[..=k].to_vec();
+                s.push(ticks[k - 1].clone());
+                s.push(ticks[k].clone());
+                s.extend(ticks[k + 1..].iter().cloned());
+                let mut rep = StateReplicaManager::new(snap.clone(), s.into_iter());
+                let res = catch(|| rep.run::<DisabledSeen, DisconnectSeen>()).map_err(|m| ("panic_in_state_replica", m))?;
+                out.checks += 1;
+                out.cells.push("fault:batch_of_records_redelivered");
+                match res {
+                    Ok(()) => {
+                        if let Err(d) = compare(&states[n - 1], rep.replica_engine_state()) {
+                            return Err(("audit_stream_with_repeated_record_was_applied", format!("records {},{k} of {n} delivered a second time after {k}, replica accepted the stream but ends in a different state: {d}", k - 1)));
+                        }
+                    }
+                    Err(_) => {
+                        if compare(&states[k], rep.replica_engine_state()).is_err() {
+                            return Err(("replica_not_left_at_last_contiguous_record", format!("records {},{k} of {n} re-delivered and rejected", k - 1)));
+                        }
+                    }
+                }
+            }
+            // (e) record k lost and the consumer KEEPS DRAINING: the run over the gap is rejected, and so is every
+            // later run over the rest of the stream (nothing after the gap may be applied)
+            if k + 2 < n {
+                let mut s = ticks.clone();
+                s.remove(k);
+                let mut rep = StateReplicaManager::new(snap.clone(), s[..=k].to_vec().into_iter());
+                let first = catch(|| rep.run::<DisabledSeen, DisconnectSeen>()).map_err(|m| ("panic_in_state_replica", m))?;
+                rep.updates = s[k + 1..].to_vec().into_iter();
+                let second = catch(|| rep.run::<DisabledSeen, DisconnectSeen>()).map_err(|m| ("panic_in_state_replica", m))?;
+                out.checks += 1;
+                out.cells.push("fault:record_lost_and_consumer_keeps_draining");
+                if first.is_ok() || second.is_ok() {
+                    return Err(("audit_stream_with_missing_record_was_applied", format!("record {k} of {n} lost; run over the gap ok={}, next run over the rest of the stream ok={}", first.is_ok(), second.is_ok())));
+                }
+                if compare(&states[k - 1], rep.replica_engine_state()).is_err() {
+                    return Err(("replica_not_left_at_last_contiguous_record", format!("record {k} of {n} lost, consumer kept draining")));
+                }
+            }
             // (c) records k and k+1 swapped
             if k + 1 < n {
                 let mut s = ticks.clone();
@@ -948,6 +990,8 @@ fn main() {
             "fault:record_deleted",
             "fault:record_duplicated",
             "fault:records_swapped",
+            "fault:batch_of_records_redelivered",
+            "fault:record_lost_and_consumer_keeps_draining",
         ] {
             report.require(c);
         }
